@@ -88,8 +88,46 @@ def impl_rp(c):
     return rc.parse(c["fw"], token, nonce, leeway)
 
 
+def shared_config_cases():
+    """two flows, one after the other, on a provider whose get_jwt_config() hands out ONE dict (a module-level constant) to every grant:
+    each ID Token carries the nonce of its own authentication request"""
+    return [{"op": "shared_config", "first": f, "second": s2} for f in ("code", "code id_token", "id_token")
+            for s2 in ("code", "id_token", "id_token token", "code id_token", "code token", "code id_token token")]
+
+
+def impl_shared_config(c):
+    import base64, json
+    from urllib.parse import urlparse, parse_qsl
+    from memserver import Req, Client
+    ms.install_clock()
+    store, srv, rp = ms.build(oidc=True)
+    store.jwt_shared = True
+    store.clients["pub"] = Client("pub", "", ["https://c/cb"], "openid profile", ms.ALL_GRANT_TYPES, ms.ALL_RESPONSE_TYPES, "none")
+    def claims(tok):
+        p = tok.split(".")[1]
+        return json.loads(base64.urlsafe_b64decode(p + "=" * (-len(p) % 4)))
+    out = []
+    for i, rt in enumerate((c["first"], c["second"])):
+        nonce = f"nonce-of-flow-{i + 1}"
+        form = dict(response_type=rt, client_id="pub", scope="openid profile", state="s", redirect_uri="https://c/cb", nonce=nonce)
+        r = srv.create_authorization_response(Req("POST", "https://as.example/authorize", form), grant_user=store.users[1])
+        loc = dict(r.headers).get("Location", "")
+        q = dict(parse_qsl(urlparse(loc).query + "&" + urlparse(loc).fragment, keep_blank_values=True))
+        res = {"rt": rt, "sent_nonce": nonce, "error": q.get("error")}
+        if "id_token" in q:
+            cl = claims(q["id_token"]); res["front"] = {"nonce": cl.get("nonce"), "aud": cl.get("aud")}
+        if "code" in q:
+            r2 = srv.create_token_response(Req("POST", "https://as.example/token", dict(grant_type="authorization_code", code=q["code"], redirect_uri="https://c/cb", client_id="pub")))
+            if "id_token" in r2.body:
+                cl = claims(r2.body["id_token"]); res["back"] = {"nonce": cl.get("nonce"), "aud": cl.get("aud")}
+            else:
+                res["back"] = {"error": str(r2.body)[:80]}
+        out.append(res)
+    return {"flows": out}
+
+
 def cases(rng, tier):
-    return _cases(rng, tier) + rp_cases() + rp_callback_cases()
+    return _cases(rng, tier) + rp_cases() + rp_callback_cases() + shared_config_cases()
 
 
 def _cases(rng, tier):
@@ -201,6 +239,8 @@ def issue(rt, alg, nonce="n-0S6_WzA2Mj", token_nonce=None):
 
 
 def impl(c):
+    if c["op"] == "shared_config":
+        return impl_shared_config(c)
     if c["op"] == "rp_integration":
         return impl_rp(c)
     if c["op"] == "rp_callback":
@@ -293,7 +333,7 @@ def enc(v):
 
 def model_line(c):
     op = c["op"]
-    if op == "rp_callback":
+    if op in ("rp_callback", "shared_config"):
         return None
     if op == "rp_integration":
         if c["pert"] == "other-key":
@@ -358,6 +398,21 @@ def oracle(c, out):
     op = c["op"]
     def bad(what, **sig):
         v.append((what, dict(sig, op=op)))
+    if op == "shared_config":
+        for i, f in enumerate(out["flows"]):
+            for side in ("front", "back"):
+                t = f.get(side)
+                if t is None:
+                    continue
+                if "error" in t:
+                    bad(f"flow {i + 1} ({f['rt']}) on a provider with one shared JWT configuration dict: token endpoint answered {t['error']}", kind="shared-config", detail="flow-failed"); continue
+                aud = t["aud"] if isinstance(t["aud"], list) else [t["aud"]]
+                if t["nonce"] != f["sent_nonce"] or "pub" not in aud:
+                    bad(f"provider whose get_jwt_config() returns one shared dict, flow {i + 1} ({f['rt']}, after a {c['first']} flow): the {side}-channel ID Token has nonce {t['nonce']!r} / aud {t['aud']!r}; "
+                        f"the authentication request sent nonce {f['sent_nonce']!r} for client 'pub'", kind="shared-config", detail="nonce")
+            if f["error"]:
+                bad(f"flow {i + 1} ({f['rt']}) refused: {f['error']}", kind="shared-config", detail="flow-failed")
+        return v
     if op == "rp_callback":
         if "raised" in out:
             bad(f"{c['fw']} client callback raised {out['raised']}", kind="crash", exc=out["raised"].split(":")[0]); return v
@@ -438,6 +493,8 @@ def classify(c, out):
         return f"rp_integration/{c['fw']}/" + ("accepted" if out.get("accepted") else "refused")
     if c["op"] == "rp_callback":
         return f"rp_callback/{c['fw']}/{out.get('id_token')}"
+    if c["op"] == "shared_config":
+        return f"shared_config/{c['first']}"
     if c["op"] == "e2e":
         return f"e2e/{c['rt']}/{c['pert']}/" + ("ok" if "ok" in out else out.get("err", out.get("provider_error", "raised")))
     return c["op"]
